@@ -20,7 +20,13 @@
  *                             attributes through cg_*_info / cg_*_read and the "P" descriptor through
  *                             cg_gorel(<label>, i) + cg_descriptor_read     -> "v <n> name:payload,..."
  *                             an entity whose attributes do not encode (payload mod M) is printed name:payload!a=<attr>,
- *                             an entity without readable payload name:?
+ *                             an entity without readable payload name:?; a child that is a LINK (cg_is_link > 0 at
+ *                             cg_gorel(<label>, i)) is printed name:@<file>|<path in file> from cg_link_read and
+ *                             nothing of what lies behind it
+ *   ln <path> <parent label> <label> <name> <file|-> <target path>   cg_gopath(<path>) + cg_link_write(<name>, <file> or ""
+ *                             for a link inside the same file, <target path>)                        -> "l <status>"
+ *   p <path>                  the "P" descriptor read at <path> (through a link when the node is one)   -> "p <payload|?>"
+ *   mv <from> <to>            rename(2) a file (a regenerated link target replaces the old one)      -> "c <status>"
  * <path> is the path of node names below the root ("/" = the root itself), resolved by cg_gopath, the indices the
  * index-based API needs are taken from cg_where.  Never prints pointers, ids, floats or error texts (C04_DEBUG=1
  * sends the library's error text to stderr). */
@@ -118,6 +124,8 @@ typedef struct kind {
     int (*cnt)(int *n);
     int (*rd)(int i, char *name, long *attr, long *mod);
     int descr;           /* the entity can hold the "P" descriptor */
+    int (*up)(const char *name, long p, int *idx);      /* command `u`: the writer that rewrites an existing entity IN PLACE
+                                                           (NULL: the kind's only writer does that) */
 } kind_t;
 
 #define BCT(p) ((CGNS_ENUMT(BCType_t))(2 + (p) % 20))
@@ -348,6 +356,23 @@ static int w_array(const char *n, long p, int *i)
     rc = cg_array_write(n, CGNS_ENUMV(Integer), 1, &dim, v);
     free(v); return rc;
 }
+/* the same array through cg_array_general_write (full range, same rank / dimensions / type): an existing DataArray_t node of
+   that name is rewritten IN PLACE (cgi_array_general_write: "overwrite a DataArray_t node of same name, size and data-type") */
+static int u_array(const char *n, long p, int *i)
+{
+    long len = array_len(); cgsize_t dim = (cgsize_t)len, lo = 1, hi = (cgsize_t)len; int rc;
+    *i = 0;
+    if (!strcmp(plabel(), "ArbitraryGridMotion_t")) {
+        double *d = malloc(sizeof(double) * (size_t)len);
+        for (long k = 0; k < len; k++) d[k] = (double)p;
+        rc = cg_array_general_write(n, CGNS_ENUMV(RealDouble), 1, &dim, &lo, &hi, CGNS_ENUMV(RealDouble), 1, &dim, &lo, &hi, d);
+        free(d); return rc;
+    }
+    int *v = malloc(sizeof(int) * (size_t)len);
+    for (long k = 0; k < len; k++) v[k] = (int)p;
+    rc = cg_array_general_write(n, CGNS_ENUMV(Integer), 1, &dim, &lo, &hi, CGNS_ENUMV(Integer), 1, &dim, &lo, &hi, v);
+    free(v); return rc;
+}
 static int n_array(int *n) { return cg_narrays(n); }
 static int r_array(int i, char *nm, long *a, long *m)
 {
@@ -432,7 +457,7 @@ static const kind_t KINDS[] = {
     /* generic: any parent */
     {"*", "Descriptor_t", w_descr, n_descr, r_descr, 0},
     {"*", "UserDefinedData_t", w_user, n_user, r_user, 1},
-    {"*", "DataArray_t", w_array, n_array, r_array, 1},
+    {"*", "DataArray_t", w_array, n_array, r_array, 1, u_array},
     {"*", "IntegralData_t", w_integral, n_integral, r_integral, 1},
     {"*", "AdditionalFamilyName_t", w_multifam, n_multifam, r_multifam, 0},
     {NULL, NULL, NULL, NULL, NULL, 0}
@@ -489,7 +514,7 @@ static void do_write(void)
     int idx = 0, rc;
     if (!k) { printf("w 9 0\n"); return; }
     if (go_for(path, pl, k)) { printf("w 1 0\n"); return; }
-    rc = k->wr(name, p, &idx);
+    rc = (W[0][0] == 'u' && k->up) ? k->up(name, p, &idx) : k->wr(name, p, &idx);
     dbg(label, rc);
     if (rc) { printf("w 1 0\n"); return; }
     if (idx == 0) {                       /* node-context writers hand back no index: find it by name */
@@ -521,6 +546,16 @@ static void do_delete(void)
     printf("d %d\n", rc ? 1 : 0);
 }
 
+static void do_link(void)
+{
+    const char *path = W[1], *name = W[4], *file = W[5], *target = W[6];
+    int rc;
+    if (go(path)) { printf("l 1\n"); return; }
+    rc = cg_link_write(name, strcmp(file, "-") ? file : "", target);
+    dbg("link", rc);
+    printf("l %d\n", rc ? 1 : 0);
+}
+
 static void do_view(void)
 {
     const char *path = W[1], *pl = W[2], *label = W[3];
@@ -542,7 +577,19 @@ static void do_view(void)
         dbg("read", rc);
         if (rc) { o += snprintf(out + o, sizeof out - o, "%s?%d", shown ? "," : "", i); shown++; continue; }
         if (hidden(pl, label, nm)) continue;                                   /* the harness' own children */
-        if (k->descr) { if (!go_child(path, pl, k, i)) havep = read_P(&p); }
+        int atchild = !go_child(path, pl, k, i), linklen = 0;
+        if (atchild && !cg_is_link(&linklen) && linklen > 0) {                 /* a link: its identity, not what is behind it */
+            char *lf = NULL, *lp = NULL;
+            o += snprintf(out + o, sizeof out - o, "%s%s:", shown ? "," : "", nm);
+            if (cg_link_read(&lf, &lp)) o += snprintf(out + o, sizeof out - o, "@?");
+            else o += snprintf(out + o, sizeof out - o, "@%s|%s", lf ? lf : "", lp ? lp : "");
+            if (lf) cg_free(lf);
+            if (lp) cg_free(lp);
+            shown++;
+            if (o > sizeof out - 1200) break;
+            continue;
+        }
+        if (k->descr) { if (atchild) havep = read_P(&p); }
         o += snprintf(out + o, sizeof out - o, "%s%s:", shown ? "," : "", nm);
         if (k->descr) {
             if (!havep) o += snprintf(out + o, sizeof out - o, "?");
@@ -553,7 +600,7 @@ static void do_view(void)
             o += snprintf(out + o, sizeof out - o, "%ld", a);
         }
         shown++;
-        if (o > sizeof out - 200) break;
+        if (o > sizeof out - 1200) break;
     }
     printf("v %d %s\n", shown, shown ? out : "-");
 }
@@ -715,6 +762,9 @@ int main(void)
         else if ((!strcmp(c, "w") || !strcmp(c, "u")) && NW >= 6) do_write();
         else if (!strcmp(c, "d") && NW >= 4) do_delete();
         else if (!strcmp(c, "v") && NW >= 4) do_view();
+        else if (!strcmp(c, "ln") && NW >= 7) do_link();
+        else if (!strcmp(c, "p") && NW >= 2) { long pv = -1; if (go(W[1]) || !read_P(&pv)) printf("p ?\n"); else printf("p %ld\n", pv); }
+        else if (!strcmp(c, "mv") && NW >= 3) { rc = rename(W[1], W[2]); printf("c %d\n", rc ? 1 : 0); }
         else printf("badline %s\n", c);
         fflush(stdout);
     }
